@@ -92,6 +92,7 @@ def _col_stats(orc, rs, cs, squared):
 def judge_stat(case, rec):
     sv, q = case["survey"], case["query"]
     part = lib.cube(zz9enc.encode(sv, q), case["transforms"]).partitions[0]
+    lib.warm(part, case.get("warmup"))
     orc = Oracle(sv, q)
     rec.event("shape=" + "x".join(case["shape"]))
     rspecs, cspecs = _specs(part, orc, case)
@@ -274,6 +275,7 @@ def means_case_st(draw):
 def judge_means(case, rec):
     sv, q = case["survey"], case["query"]
     part = lib.cube(zz9enc.encode(sv, q), case["transforms"]).partitions[0]
+    lib.warm(part, case.get("warmup"))
     orc = Oracle(sv, q)
     rec.event("shape=" + "x".join(case["shape"]))
     rspecs, cspecs = _specs(part, orc, case)
@@ -355,6 +357,7 @@ def overlap_case_st(draw):
 def judge_overlap(case, rec):
     sv, q = case["survey"], case["query"]
     part = lib.cube(zz9enc.encode(sv, q), case["transforms"]).partitions[0]
+    lib.warm(part, case.get("warmup"))
     orc = Oracle(sv, q)
     rec.event("shape=" + "x".join(case["shape"]))
     rspecs, cspecs = _specs(part, orc, case)
